@@ -12,9 +12,10 @@ import (
 )
 
 type Val struct {
-	T   Term
-	GoT types.Type // may be nil for pure spec values
-	Aux *Term      // contents array for slice-typed spec parameters
+	T      Term
+	GoT    types.Type // may be nil for pure spec values
+	Aux    *Term      // contents array for slice-typed spec parameters
+	DerefT types.Type // non-nil: T is a pointer to a captured variable of this type, read at each use
 }
 
 type Env struct {
@@ -360,6 +361,12 @@ func constVal(P *Prog, cv constant.Value, t types.Type) (Val, error) {
 
 func (env *Env) elabIdent(name string) (Val, error) {
 	if v, ok := env.bound[name]; ok {
+		if v.DerefT != nil {
+			if env.st == nil {
+				return Val{}, fmt.Errorf("captured variable %s read without state", name)
+			}
+			return Val{T: env.st.read(env.P, &Loc{kind: locPtr, base: v.T, rootT: v.DerefT}), GoT: v.DerefT}, nil
+		}
 		return v, nil
 	}
 	if name == "result" && len(env.results) >= 1 {
